@@ -863,6 +863,8 @@ def run(ctx):
     # (spec/metadata/Growth_*.tla; deviations are GROWTH-FINDINGs, not violations of C15)
     from .. import lib_growth_metadata
     ctx.run_growth(lib_growth_metadata.run, 'lib_growth_metadata')
+    from .. import lib_growth_nexusmeta
+    ctx.run_growth(lib_growth_nexusmeta.run, 'lib_growth_nexusmeta')
 
 
 META = {
